@@ -522,6 +522,16 @@ pub struct ProxyNode {
     pub handler: ForwardHandler<SimClientFactory, SimConnFactory>,
     pub authenticated: AtomicBool,
     pub sessions: AtomicUsize,
+    meta_map: undermoon::proxy::manager::SharedMetaMap<SimConnFactory>,
+}
+
+impl Drop for ProxyNode {
+    fn drop(&mut self) {
+        // The installed MetaMap refers back to the shared map through the blocking-queue retry
+        // sender (a reference cycle that is harmless in a long-living proxy); empty it so that the
+        // thousands of short-lived proxies of an exploration are actually freed.
+        self.meta_map.store(Arc::new(MetaMap::empty()));
+    }
 }
 
 #[derive(Clone, Debug)]
@@ -610,8 +620,8 @@ impl World {
         let meta_map = Arc::new(arc_swap::ArcSwap::new(Arc::new(MetaMap::empty())));
         let reg = Arc::new(TrackedFutureRegistry::default());
         let (stopped, _rx) = mpsc::unbounded();
-        let handler = ForwardHandler::new(config.clone(), cf, Arc::new(SlowRequestLogger::new(config)), meta_map, conn, reg, stopped);
-        let node = Arc::new(ProxyNode { address: address.to_string(), handler, authenticated: AtomicBool::new(false), sessions: AtomicUsize::new(0) });
+        let handler = ForwardHandler::new(config.clone(), cf, Arc::new(SlowRequestLogger::new(config)), meta_map.clone(), conn, reg, stopped);
+        let node = Arc::new(ProxyNode { address: address.to_string(), handler, authenticated: AtomicBool::new(false), sessions: AtomicUsize::new(0), meta_map });
         self.0.st.lock().unwrap().proxies.insert(address.to_string(), node.clone());
         node
     }
